@@ -558,6 +558,13 @@ class Checker(CommandMixin):
                     self.v("C12", "active-mailbox-survives", ev,
                            "sweep at %.3f deleted mailbox %r whose last activity was at %.3f (%.3f s earlier)"
                            % (now, k, act, now - act))
+                elif (rec.get("sub_sweep") is not None and not self.backward_jump
+                      and 0 <= now - rec["sub_sweep"][0] < EXPIRY - EPS and ev.t - rec["sub_sweep"][1] < EXPIRY - EPS):
+                    # a client was subscribed when an earlier sweep ran: that sweep keeps the channel
+                    # alive, so its client may be away for the expiration time minus one period
+                    self.v("C12", "recently-subscribed-mailbox-survives", ev,
+                           "sweep at %.3f deleted mailbox %r although a client was subscribed to it at the sweep "
+                           "%.3f s earlier" % (now, k, now - rec["sub_sweep"][0]))
                 if self.viol and self.viol[-1]["prop"] == "C12" and self.viol[-1]["event"] == ev.idx:
                     # removed although it was alive by the rules: as far as C03 is concerned the
                     # nameplate still lives and still leads to this mailbox
@@ -569,6 +576,8 @@ class Checker(CommandMixin):
             else:
                 if subscribed and (now - (act or now)) > EXPIRY:
                     self.probes["sweep_old_subscriber_kept"] += 1
+                if subscribed and not raised and k in self.mb_inc:
+                    self.mb_inc[k]["sub_sweep"] = (now, ev.t)
                 if m.msgs:
                     kept_with_msgs = True
                 if (pm.updated is not None and m.updated is not None and pm.updated < m.updated - EPS
